@@ -227,8 +227,11 @@ def _series(wd, shard, ctx, res, only):
     cases = [[n, vc] for n in range(shard["lo"], shard["hi"] + 1) for vc in ("ramp", "const", "huge")]
     if only is not None:
         cases = [only]
-    tsamp, tstart, dm = 0.000256, 58123.456789012345, 56.78125
+    metas = [(0.000256, 58123.456789012345, 56.78125), (64e-6, 60000.000000001, 0.0), (1e-3 / 3, 50000.999999999, 1234.56789012),
+             (0.1, 58849.5, 0.001953125)]
     for n, vc in cases:
+        # timing metadata cycle with the case so that several value patterns go through every format
+        tsamp, tstart, dm = metas[(n + len(vc)) % len(metas)]
         case = {"shard": shard, "inner": [n, vc]}
         x = _series_values(n, vc)
         hdr = Header(filename=str(wd / "series.tim"), data_type="time series", nchans=1, foff=-0.5, fch1=1400.0, nbits=32,
@@ -238,7 +241,7 @@ def _series(wd, shard, ctx, res, only):
             if exact:
                 ok = h.tsamp == tsamp and h.tstart == tstart and h.dm == dm
             else:
-                ok = abs(h.tsamp - tsamp) <= 1e-12 * tsamp and abs(h.tstart - tstart) <= 1e-10 and abs(h.dm - dm) <= 1e-12 * dm
+                ok = abs(h.tsamp - tsamp) <= 1e-12 * tsamp and abs(h.tstart - tstart) <= 1e-10 and abs(h.dm - dm) <= 1e-12 * max(dm, 1e-30)
             if not ok:
                 res.violation({"site": site, "symptom": "timing metadata changed"}, case,
                               f"tsamp {h.tsamp!r}/{tsamp!r} tstart {h.tstart!r}/{tstart!r} dm {h.dm!r}/{dm!r}")
